@@ -173,10 +173,10 @@ def gen_large(rng, kind):
         case["beta"] = dict(form="float", value=float(rng.choice([0.5, 3.0, 20.0])))
         case["init"] = dict(kind="blocks")
         case["label_script"] = dict(pattern=["P5", "Q5"], then="natural", sizes=[a, b])
-    elif kind == "manyK":
+    elif kind in ("manyK", "manyK11"):
         case["data"].update(T=int(rng.integers(300, 520)), N=int(rng.integers(1, 3)), n_reg=6, seg=12)
         case["W"] = 1 if case["data"]["N"] == 2 else int(rng.integers(1, 3))
-        case["K"] = int(rng.integers(8, 15))
+        case["K"] = int(rng.integers(8, 15)) if kind == "manyK" else int(rng.integers(11, 15))   # two-digit cluster ids
         case["limit"] = int(rng.choice([2, 4]))
         case["m"] = int(rng.integers(2, 6))
         case["beta"] = dict(form="float", value=float(rng.choice([0.5, 5.0])))
